@@ -49,11 +49,11 @@ ENDS = ["close", "timeout", "oserror"]
 def floors(tier):
     return {"reader": 2500, "wrapper": 1500, "real-socket": 40, "split-inside-frame": 1000,
             "end=close": 500, "end=timeout": 500, "end=oserror": 500, "all-compositions": 1000,
-            "bufsize=1": 100, "bufsize=4096": 100}
+            "bufsize=1": 100, "bufsize=4096": 100, "session>64KiB": 12}
 
 
 def plan(tier, seed):
-    return [{"what": "reader", "part": i} for i in range(8)] + [
+    return [{"what": "reader", "part": i} for i in range(8)] + [{"what": "long", "part": i} for i in range(4)] + [
         {"what": "compositions", "part": i} for i in range(4)] + [
         {"what": "wrapper", "part": i} for i in range(3)] + [{"what": "real"}]
 
@@ -79,7 +79,7 @@ def check_one(case) -> core.Out:
             data = bytes(case["data"])
             opts = dict(case["opts"])
             chunks, bufsize, end = list(case["chunks"]), case["bufsize"], case["end"]
-            out = core.Out(classes=["reader", f"end={end}", f"bufsize={bufsize}"],
+            out = core.Out(classes=["reader", f"end={end}", f"bufsize={bufsize}"] + (["session>64KiB"] if case.get("long") else []),
                            dig=core.digest((data, chunks, bufsize, end, sorted(opts.items()))))
             try:
                 want, exc = S.read_all(io.BytesIO(data), opts, handler=(lambda e: None) if opts["quitonerror"] == 1 else None,
@@ -248,7 +248,7 @@ def schedules(draw, items, n):
         off = 0
         for it in items:
             off += len(it["b"])
-            cuts.add(off + draw(st.sampled_from([-1, 0, 1, -2, 2])))
+            cuts.add(off + draw(st.sampled_from([-1, 0, 1, -2, 2, 0, 6])))  # (+6: just after the next UBX header)
         cuts = sorted(c for c in cuts if 0 < c < n)
         out, prev = [], 0
         for c in cuts:
@@ -279,6 +279,33 @@ def run_shard(spec, ctx, acc):
 
         core.hyp_search(acc, cases(), check, seed=core.derive(ctx["seed"], PROP, "r", spec["part"]),
                         max_examples=400 if quick else 8000, known=known, rounds=3)
+        return
+    if what == "long":
+        # long sessions: more than 64 KiB pass through one reader before the part
+        # of the stream whose chunking is varied
+        @st.composite
+        def longcases(draw):
+            corp = streams.corpus()
+            body, k = [], draw(st.integers(0, 50))
+            target = draw(st.sampled_from([66000, 70000, 131500]))
+            while sum(len(x) for x in body) < target:
+                body.append(corp["ubx"][k % len(corp["ubx"])])
+                k += 1
+            items = [streams.item("ubx", b"".join(body), "bulk")]
+            tail = draw(st.lists(st.one_of(streams.nmea_items(), streams.nmea_items(), streams.ubx_items()),
+                                 min_size=6, max_size=14))
+            items += tail
+            data = streams.stream_bytes(items)
+            step = draw(st.sampled_from([1000, 997, 1460, 4096, 512]))
+            first = draw(st.integers(1, step))
+            chunks = [first] + [step] * (len(data) // step + 2)
+            return {"kind": "reader", "data": data, "items": [streams.item("noise", items[0]["b"], "bulk")] + tail,
+                    "opts": {"msgmode": 0, "validate": 1, "parsebitfield": 1, "quitonerror": 0, "protfilter": 7},
+                    "chunks": chunks, "bufsize": draw(st.sampled_from([4096, 1024, 65536])),
+                    "end": draw(st.sampled_from(ENDS)), "long": True}
+
+        core.hyp_search(acc, longcases(), check, seed=core.derive(ctx["seed"], PROP, "long", spec["part"]),
+                        max_examples=5 if quick else 60, known=known, rounds=1, shrink=False)
         return
     if what == "compositions":
         # every composition (ordered split) of short sequences
